@@ -50,6 +50,10 @@ class Seams:
         if dt:
             self.now += int(dt)
             self.stats["clock_advanced"] = self.stats.get("clock_advanced", 0) + 1
+            if dt > 0:
+                self.stats["clock_seconds_forward"] = self.stats.get("clock_seconds_forward", 0) + int(dt)
+            else:
+                self.stats["clock_steps_back"] = self.stats.get("clock_steps_back", 0) + 1
 
     def touch(self, relp, created):
         self.mtimes[relp] = self.now
